@@ -308,36 +308,59 @@ def r4(ctx):
     stride = T_(strd[0]) if strd else Pred(lambda t: False)
     off = _var('offset')
     gl_ = T_(glen[0]) if glen else Pred(lambda t: False)
-    for t in b.calls(r'::for_each$'):
-        r = core(sym(b, t.args[0]))
-        rngs = [x for x in walk(r) if isinstance(x, tuple) and x and x[0] == 'index' and x[2][0] == 'agg' and x[2][2].endswith('Range::Range')]
-        if not rngs:
+    from analysis import poly as _poly
+    p_off = _poly.poly(('var', b.var_name(R['offset']) or '', R['offset']))
+    p_str = _poly.poly(strd[0]) if strd else None
+    p_gl = _poly.poly(glen[0]) if glen else None
+    for t in b.calls(r'IndexMut>::index_mut$'):
+        rg = core(sym(b, t.args[1]))
+        if not (rg[0] == 'agg' and rg[2].endswith('Range::Range')) or p_str is None or p_gl is None:
             continue
-        base, rg = rngs[0][1], rngs[0][2]
-        lo, hi = rg[3]
+        base = core(sym(b, t.args[0]))
+        lo, hi = _poly.poly(rg[3][0]), _poly.poly(rg[3][1])
         which = None
         if match(base, _var('indices')):
-            for k, lo_p in ((0, off), (1, Pred(lambda u: match(u, ('bin', 'Add', stride, off)) or match(u, ('bin', 'Add', off, stride)))),
-                            (2, Pred(lambda u: match(u, ('bin', 'Add', ('bin', 'Mul', Const(2), stride), off)) or match(u, ('bin', 'Add', off, ('bin', 'Mul', Const(2), stride)))))):
-                if match(lo, lo_p) and match(hi, ('bin', 'Add', Pred(lambda u: nosite(u) == nosite(lo)), gl_)):
+            for k in (0, 1, 2):
+                want_lo = _poly._add(p_off, _poly._mul({(): k}, p_str) if k else {}, 1)
+                if lo == want_lo and hi == _poly._add(want_lo, p_gl, 1):
                     which = k
         elif match(base, _var('values')):
-            if match(lo, off) and match(hi, ('bin', 'Add', off, gl_)):
+            if lo == p_off and hi == _poly._add(p_off, p_gl, 1):
                 which = 'values'
         planes[which] = t
+    if not planes:
+        raise AnchorMissing('range writes into the index planes / values of the sparse matrix')
     ctx.require({0, 1, 2, 'values'} <= set(planes), b, 'planes', 'batch / group / token index planes and the values are written over [offset, offset + group_len) at 0, stride, 2*stride',
                 'planes written: %s' % sorted(str(k) for k in planes))
+    def plane_value(t):
+        """the value written to every element of the range slice produced by index_mut call t"""
+        sl = nosite(sym(b, t.dest))
+        for u in b.terms('call'):
+            if u is t or not u.args:
+                continue
+            if not any(isinstance(x, tuple) and nosite(x) == sl for x in walk(sym(b, u.args[0]))):
+                continue
+            n_ = (u.callee_res() or '').rsplit('::', 1)[-1]
+            if n_ == 'fill' and len(u.args) == 2:
+                return core(sym(b, u.args[1]))
+            if n_ == 'for_each' and len(u.args) == 2:
+                clo = closure_of(ctx, sym(b, u.args[1]))
+                st = [core(simplify(symbolizer(clo).rvalue(s_.rv, 0, ()))) for s_ in clo.stmts() if s_.kind == 'assign' and s_.lhs.proj]
+                if len(st) == 1:
+                    from rules.common import resolve_upvars
+                    return core(resolve_upvars(ctx, clo, st[0]))
+        return None
     for k, want in ((0, 'batch_index'), (1, 'group_idx')):
         if k in planes:
-            clo = closure_of(ctx, sym(b, planes[k].args[1]))
-            st = [core(simplify(symbolizer(clo).rvalue(s.rv, 0, ()))) for s in clo.stmts() if s.kind == 'assign' and s.lhs.proj]
-            ok = len(st) == 1 and match(st[0], ('upvar', 0, ANY))
-            cap = core(sym(b, planes[k].args[1])[3][0]) if ok else None
-            ok = ok and cap is not None
-            ctx.require(ok, b, 'plane-value|%d' % k, 'plane %d holds the %s' % (k, want), None)
+            v_ = plane_value(planes[k])
+            if v_ is None:
+                continue
+            ok = v_[0] != 'const' and any(isinstance(x, tuple) and x and x[0] == 'field' and x[2] == 0 for x in walk(v_))
+            ctx.require(ok, b, 'plane-value|%d' % k, 'plane %d holds the %s (the enumeration index of the %s loop)' % (k, want, 'batch' if k == 0 else 'group'),
+                        'plane %d is filled with %s' % (k, show_in(b, v_)))
     offs = [(site, core(v)) for site, v in local_defs(b, R['offset'])]
-    inc = [x for x in offs if x[1][0] == 'bin']
-    ok = len(inc) == 1 and match(inc[0][1], ('bin', 'Add', off, gl_))
+    inc = [x for x in offs if not (x[1][0] == 'const')]
+    ok = len(inc) == 1 and p_gl is not None and _poly.poly(inc[0][1]) == _poly._add(p_off, p_gl, 1)
     if ok:
         lp = cfg.innermost_loop(b, inc[0][0].bb)
         ok = lp is not None and all(cfg.must_pass(b, lp.header, l, via_blocks=[inc[0][0].bb], from_succ=True) for l in lp.latches)
